@@ -48,7 +48,7 @@ OVERLAP_UNIONS = [
     ("or", (("con", "int", (("multiple_of", 5),), (), ()), ("con", "str", (("regex", r"\d+"),), (), ()))),
 ]
 OVERLAP_INPUTS = ["12abc", "123", "12", "1.5x", 3.7, 2.4, "3.7", 5, 99, -1, "7", "0", 12.25, "12.25", Decimal("3.75"), b"45", "45abc", True, 2.5, "abc", 10, "10"]
-NUM_POOL = [0, 1, -1, 2, 3, 5, 7, 9, 10, 11, 12, 99, 100, 101, 255, 999, 1000, 1001, -7, -10, -11, -255,
+NUM_POOL = [Decimal(0.1), Decimal(0.7), Decimal(0.3), "0.1", "0.7", 0, 1, -1, 2, 3, 5, 7, 9, 10, 11, 12, 99, 100, 101, 255, 999, 1000, 1001, -7, -10, -11, -255,
             0.0, -0.0, 0.5, 1.5, -1.5, 2.5, 0.1, 0.3, 0.7, 1.0, 0.9, 1.1, 9.95, 99.95, 999.5, 0.0009995, 12.345, 12.3, 0.995, 9.5,
             3.14159, 1e16, 1e-7, 123456.789, -99.95, -0.05, 0.05, 0.15, 0.25, 0.35, 2.675, 1.005,
             Decimal("0"), Decimal("1"), Decimal("1.0"), Decimal("1.50"), Decimal("99.95"), Decimal("9.95"), Decimal("999.5"),
@@ -86,8 +86,12 @@ def _lax_family(rng):
             b = rng.choice([0, 1, 2, 3])
         elif c == "const":
             b = conv(rng.choice([0, 1, 5]))
+            if origin == "Decimal" and rng.random() < 0.3:
+                b = rng.choice([0.1, 0.7, 0.25, 1.5])   # a float member on a Decimal rule (membership is ==, exact)
         else:
             b = tuple(conv(x) for x in rng.sample([0, 1, 5, 10], 2))
+            if origin == "Decimal" and rng.random() < 0.4:
+                b = rng.choice([(0.1, 0.25, 0.7), (0.3, 5), (0.1, Decimal("0.5"))])
         extra = ()
         if c in ("multiple_of", "max_digits", "decimal_places") and rng.random() < 0.3:
             extra = (rng.choice([("ge", 0), ("le", 100), ("gt", -10)]),)
